@@ -47,6 +47,59 @@ def detects(root: Path, before, root_sums) -> tuple[bool, bool, str]:
     return fresh_ok, old_ok, how
 
 
+WS = (0x0a, 0x0d, 0x20, 0x09)
+
+
+def substitutes(b: int, tier: str) -> list[int]:
+    out = []
+    if b in WS:
+        out += [v for v in WS if v != b]
+    out += [0x00, b ^ 0xff]
+    if tier == "thorough":
+        out += [(b + 1) & 0xff, (b - 1) & 0xff, 0x0a, 0x0d, 0x20]
+    seen = []
+    for v in out:
+        if v != b and v not in seen:
+            seen.append(v)
+    return seen
+
+
+def reencodings(rel: str, data: bytes) -> list[tuple[str, bytes]]:
+    """Whole-file rewrites that keep the meaning of the file (what a text
+    tool, a transfer in text mode or a JSON formatter would do)."""
+    import json
+    out = [("every LF turned into CR LF", data.replace(b"\n", b"\r\n")),
+           ("every LF turned into CR", data.replace(b"\n", b"\r")),
+           ("trailing newline added", data + b"\n"),
+           ("trailing whitespace stripped", data.rstrip()),
+           ("UTF-8 byte order mark prepended", b"\xef\xbb\xbf" + data)]
+    i = data.find(b"\n")
+    if i >= 0:
+        out.append(("first LF turned into CR LF",
+                    data[:i] + b"\r\n" + data[i + 1:]))
+        out.append(("first LF turned into CR",
+                    data[:i] + b"\r" + data[i + 1:]))
+        j = data.rfind(b"\n")
+        out.append(("last LF turned into CR",
+                    data[:j] + b"\r" + data[j + 1:]))
+    if rel.endswith(".json"):
+        try:
+            doc = json.loads(data)
+        except ValueError:
+            return out
+        for what, kw in (("compact", dict(separators=(",", ":"))),
+                         ("indent=2", dict(indent=2)),
+                         ("indent=4", dict(indent=4)),
+                         ("indent=1 sorted keys", dict(indent=1,
+                                                       sort_keys=True)),
+                         ("default dumps", {}),
+                         ("non-ASCII kept", dict(ensure_ascii=False,
+                                                 indent=2))):
+            out.append((f"re-serialised JSON ({what})",
+                        json.dumps(doc, **kw).encode("utf-8")))
+    return out
+
+
 def fault_case(args) -> dict:
     name, hashes, tier, part, nparts = args
     root = core.fresh_dir("c05")
@@ -119,11 +172,27 @@ def fault_case(args) -> dict:
                           f"flip of bit {bit} at offset {off}")
                 trial("truncate", rel, data[:off],
                       f"truncation to {off} bytes")
+                # substitutions by a byte a tolerant reader could take for
+                # the same thing, insertions and single-byte deletions
+                for v in substitutes(data[off], tier):
+                    b = bytearray(data)
+                    b[off] = v
+                    trial("substitute", rel, bytes(b),
+                          f"byte {data[off]:#04x} at offset {off} replaced "
+                          f"by {v:#04x}")
+                for v in ((0x0d, 0x20, 0x00) if tier == "thorough" else
+                          (0x0d,)):
+                    trial("insert", rel, data[:off] + bytes([v]) + data[off:],
+                          f"byte {v:#04x} inserted at offset {off}")
+                trial("drop-byte", rel, data[:off] + data[off + 1:],
+                      f"byte at offset {off} removed")
             if part == 0:
                 for extra in (b"\x00", b"\n", b"\xff"):
                     trial("extend", rel, data + extra,
                           f"extension by byte {extra!r}")
                 trial("delete", rel, None, "deletion")
+                for what, enc in reencodings(rel, data):
+                    trial("re-encode", rel, enc, what)
                 for other in files:
                     if other != rel and Path(other).suffix == Path(
                             rel).suffix and (Path(other).name == Path(
@@ -270,8 +339,12 @@ def run(ctx):
             distinct_nontrivial=sub.cov.get("states", 0))
     ctx.cov["rule"] = (
         "a case = one single fault applied to one file reachable from the "
-        "description of a committed dataset (every byte offset: bit flip "
-        "and truncation to that length; extension by 0x00/0x0a/0xff; "
+        "description of a committed dataset (every byte offset: bit flip, "
+        "truncation to that length, substitution by look-alike bytes "
+        "(LF/CR/space/tab among themselves, 0x00, complement), insertion "
+        "of CR, removal of the byte; whole-file re-encodings: LF->CRLF, "
+        "LF->CR, BOM, trailing newline, re-serialised JSON in 6 styles; "
+        "extension by 0x00/0x0a/0xff; "
         "deletion; replacement by every sibling of the same kind; rollback "
         "to every older version of the same path; subsets of metadata "
         "files rolled back together), evaluated on a handle opened before "
